@@ -737,7 +737,7 @@ theorem partial_store (t : Token) (j : JVal) :
             | some i =>
               cases hn : spk.lookup "name" <;>
                 simp [member, storeReply, subscript_obj, ha, hc, hs, hi, hn]
-          | _ => simp [member, storeReply, subscript_obj, subscript, ha, hc, hs]
+          | _ => simp [member, storeReply, subscript, ha, hc, hs]
   | _ => simp [member, storeReply, subscript]
 
 /-- On a `200` response whose body is JSON, `authenticate` and `refresh` are `storeReply` — for
@@ -779,5 +779,298 @@ theorem selected_profile_not_an_object (t : Token) (txt : String) (kvs : List (S
   intro res
   refine ⟨h'.trans ?_, h.trans ?_⟩ <;>
     simp [storeReply, subscript_obj, h1, h2, h3, subscript_nonobj sp "id" hsp]
+
+/-! ## 4. operation sequences
+
+`runSeq w steps`: a program's calls (`Call.method i op` on token number `i`, or the static
+`Call.signOut`), the `k`-th answered by the `k`-th given response.  `runSvc svc s w calls`: the same
+calls against a stateful stand-in service.  `runTok t hist`: the calls of ONE token.
+`stepsFor j steps` / `obsFor j steps obs`: the steps / observations that are methods of token `j`.
+`build mk inits`: the tokens of a program, created one after the other by the constructor `mk`. -/
+
+/-- What the constructor must guarantee, as a statement about ANY constructor `mk`: in every
+program, whatever happens to the OTHER tokens (and whatever `sign_out` calls are made), each token
+ends up as — and each of its calls returns / raises / posts what — its own calls alone produce,
+starting from `(username, access_token, client_token)` as constructed and an empty profile. -/
+def TokensIndependent (mk : World → JVal → JVal → JVal → World) : Prop :=
+  ∀ (inits : List (JVal × JVal × JVal)) (steps : List (Call × Resp)) (j : Nat)
+    (x : JVal × JVal × JVal), inits[j]? = some x →
+    let t0 : Token := ⟨x.1, x.2.1, x.2.2, ⟨.null, .null⟩⟩
+    ((runSeq (build mk inits) steps).1.view j = some (runTok t0 (stepsFor j steps)).1 ∧
+     obsFor j steps (runSeq (build mk inits) steps).2 = (runTok t0 (stepsFor j steps)).2.map some)
+
+/-- `__init__` (`self.profile = Profile()`: a new profile object per token) guarantees it. -/
+theorem tokens_independent : TokensIndependent World.newToken := by
+  intro inits steps j x hx
+  obtain ⟨hna, _, hv⟩ := build_newToken_spec inits
+  exact runSeq_view_some _ steps j _ hna (hv j x hx)
+
+/-- The same for any world in which no two tokens share a profile object (however it was built),
+with the responses computed by a stateful service instead of given: the run against the service IS
+a run with some list of responses (one per call), so every statement about `runSeq` — all of this
+section — holds for it. -/
+theorem service_run_is_reply_run {σ : Type} (svc : Service σ) (s : σ) (w : World)
+    (calls : List Call) :
+    ∃ resps : List Resp, resps.length = calls.length ∧
+      (runSvc svc s w calls).2 = runSeq w (calls.zip resps) :=
+  runSvc_eq_runSeq svc s w calls
+
+/-- "Errors leave it untouched", for histories and for the whole program state.  Take any program
+run `pre ++ [step] ++ post`.  If `step` is answered by a refusal — a `YggdrasilError` (error reply,
+or `join` not authenticated), a `ValueError` (missing token, or a `200` body that is not JSON), an
+exception of `requests.post` — then NO token and NO profile object differs from before it, and
+deleting the step from the history changes neither the final state nor what any other call of the
+run returned, raised or posted. -/
+theorem refused_call_leaves_no_trace (w : World) (pre post : List (Call × Resp)) (c : Call)
+    (rsp : Resp) (o : Outcome) (q : Option Request)
+    (h : ((runSeq w pre).1.call c (fun _ => rsp)).2 = some (o, q)) (ho : o.isRefusal = true) :
+    (runSeq w (pre ++ [(c, rsp)])).1 = (runSeq w pre).1 ∧
+    (runSeq w (pre ++ (c, rsp) :: post)).1 = (runSeq w (pre ++ post)).1 ∧
+    (runSeq w (pre ++ (c, rsp) :: post)).2 =
+      (runSeq w pre).2 ++ some (o, q) :: (runSeq (runSeq w pre).1 post).2 ∧
+    (runSeq w (pre ++ post)).2 = (runSeq w pre).2 ++ (runSeq (runSeq w pre).1 post).2 := by
+  have hw := call_refusal (runSeq w pre).1 c (fun _ => rsp) o q h ho
+  refine ⟨?_, ?_, ?_, ?_⟩
+  · rw [runSeq_append]; simp [runSeq, hw]
+  · rw [runSeq_append, runSeq_append]; simp [runSeq, hw]
+  · rw [runSeq_append]; simp [runSeq, hw, h]
+  · rw [runSeq_append]
+
+/-- Which outcomes are refusals: exactly these. -/
+theorem refusal_iff (o : Outcome) :
+    o.isRefusal = true ↔
+      (∃ a st e m c, o = .yggdrasil a st e m c) ∨ (∃ w, o = .valueError w) ∨
+      o = .attributeError ∨ o = .transport := by
+  cases o <;> simp [Outcome.isRefusal]
+
+/-- The history of one token, syntactically: only `authenticate` / `refresh` calls answered by a
+`200` response with a JSON body (`Storing`, decidable from the step alone) can matter.  Deleting
+ALL other calls from a token's history — every `validate`, `invalidate`, `join`, every call answered
+by an error status, a non-JSON body or a transport failure — gives the same final token, and the
+calls that remain return / raise / post exactly what they did. -/
+theorem history_only_storing_steps_matter (t : Token) (hist : List (Op × Resp)) :
+    (runTok t hist).1 = (runTok t (hist.filter Storing)).1 ∧
+    ((hist.zip (runTok t hist).2).filter (fun p => Storing p.1)).map (·.2) =
+      (runTok t (hist.filter Storing)).2 :=
+  runTok_filter_storing t hist
+
+/-- In particular: a history without such a step leaves the token exactly as it was. -/
+theorem history_unchanged (t : Token) (hist : List (Op × Resp))
+    (h : ∀ s ∈ hist, Storing s = false) : (runTok t hist).1 = t :=
+  runTok_all_inert t hist h
+
+/-- … and so for a token inside a program: if none of ITS calls is such a step, it is unchanged at
+the end, whatever the other tokens did (no shared profile objects). -/
+theorem program_history_unchanged (w : World) (steps : List (Call × Resp)) (j : Nat) (t : Token)
+    (hw : NoAlias w) (hv : w.view j = some t) (h : ∀ s ∈ stepsFor j steps, Storing s = false) :
+    (runSeq w steps).1.view j = some t := by
+  rw [(runSeq_view_some w steps j t hw hv).1, history_unchanged t _ h]
+
+/-- `authenticate`, then anything that does not store, then `join`.  After an `authenticate`
+answered by a documented result (`Ref/Yggdrasil.resultReplySpec`: strings `a`, `c`, `i`, `n`) with
+non-empty user name and tokens, and after ANY further calls none of which stores (validates,
+invalidates, joins, failed logins and refreshes, with any responses), `join(sid)` posts — to the
+documented join URL — a body that decodes to `{"accessToken": a, "selectedProfile": {"id": i,
+"name": n}, "serverId": sid}` with the values of THAT reply, and returns `True` iff its response has
+status `204` or `200`; the token is still the one `authenticate` stored. -/
+theorem authenticate_then_join (t : Token) (fresh user pass txt sid : String) (inv : Bool)
+    (j : JVal) (a c i n : String) (mid : List (Op × Resp)) (rsp : Resp)
+    (hj : Yggdrasil.resultReplySpec j = some (a, c, i, n))
+    (hne : user ≠ "" ∧ a ≠ "" ∧ c ≠ "") (hmid : ∀ s ∈ mid, Storing s = false) :
+    let res := runTok t ((.authenticate fresh user pass inv, .reply ⟨200, txt, some j⟩) :: mid ++
+      [(.join sid, rsp)])
+    res.1 = ⟨.str user, .str a, .str c, ⟨.str i, .str n⟩⟩ ∧
+    ∃ o q, res.2.getLast? = some (o, some q) ∧
+      q.url = Yggdrasil.url .join ∧ q.method = Yggdrasil.httpMethod ∧
+      parseJson q.body = some (.obj [("accessToken", .str a),
+        ("selectedProfile", .obj [("id", .str i), ("name", .str n)]), ("serverId", .str sid)]) ∧
+      (o = .ret true ↔ ∃ r, rsp = .reply r ∧ (r.status = 204 ∨ r.status = 200)) := by
+  obtain ⟨h1, _, h3⟩ := documented_result_is_stored fresh user pass inv t txt j a c i n hj
+  have hau := h3.mpr hne
+  intro res
+  have hres : res = runTok t ([(.authenticate fresh user pass inv, .reply ⟨200, txt, some j⟩)] ++
+      (mid ++ [(.join sid, rsp)])) := rfl
+  rw [hres, runTok_append, runTok_append]
+  have e1 : (runTok t [(.authenticate fresh user pass inv, .reply ⟨200, txt, some j⟩)]).1 =
+      ⟨.str user, .str a, .str c, ⟨.str i, .str n⟩⟩ := h1
+  simp only [e1, history_unchanged _ mid hmid]
+  rw [h1] at hau
+  have hq := (posted_payload (fun _ => rsp) ⟨.str user, .str a, .str c, ⟨.str i, .str n⟩⟩).2.2.2.2 sid
+  rw [if_neg (by simp [hau])] at hq
+  obtain ⟨q, hq1, hq2⟩ := hq
+  obtain ⟨hm, _, hu, _⟩ := request_is_documented_post (.join sid) (fun _ => rsp) _ q hq1
+  have hjoin := run_fst_of_not_store (.join sid) (fun _ => rsp)
+    ⟨.str user, .str a, .str c, ⟨.str i, .str n⟩⟩ (by simp) (by simp)
+  have glast : ∀ (x : Outcome × Option Request) (l : List (Outcome × Option Request))
+      (y : Outcome × Option Request), (x :: (l ++ [y])).getLast? = some y := by
+    intro x l y; rw [← List.cons_append, List.getLast?_concat]
+  refine ⟨by simp [runTok, hjoin],
+    (run (.join sid) (fun _ => rsp) ⟨.str user, .str a, .str c, ⟨.str i, .str n⟩⟩).2.1, q,
+    by simp only [runTok, hq1, List.singleton_append]; exact glast _ _ _,
+    hu, hm, hq2, ?_⟩
+  have hprep := prepare_of_request (.join sid) _ q (by rw [← run_request _ (fun _ => rsp)]; exact hq1)
+  rw [run_of_prepare_ok _ _ _ q hprep]
+  simp only [finish, finish204]
+  cases rsp with
+  | fail => simp
+  | reply r =>
+    by_cases h204 : r.status = 204
+    · simp [h204]
+    · cases hr : raiseFromResponse r with
+      | none => simp [hr, (raise_none_iff r).mp hr]
+      | some e =>
+        obtain ⟨h200, _, _, _, _, rfl⟩ := raise_some_shape r e hr
+        simp [h204, hr, h200]
+
+namespace Changed
+
+/-- `profile = Profile()` as a CLASS attribute (one object, made when the class is defined) and no
+`self.profile = Profile()` in `__init__`: every token refers to profile object number 0. -/
+def newTokenSharedProfile (w : World) (username accessToken clientToken : JVal) : World :=
+  { profiles := if w.profiles.isEmpty then [⟨.null, .null⟩] else w.profiles
+    tokens := w.tokens ++ [⟨username, accessToken, clientToken, 0⟩] }
+
+end Changed
+
+/-- With the shared class-level profile, a login on token 0 changes what token 1 holds — token 1,
+which made no call at all, ends up with alice's profile (and `Props/C19.lean`, whose statements are
+all about one call on one token, cannot see it). -/
+example : ¬ TokensIndependent Changed.newTokenSharedProfile := by
+  intro h
+  have := (h [(.null, .null, .null), (.str "bob", .str "b-acc", .str "b-cli")]
+    [(.method 0 (.authenticate "f" "alice" "pw" false),
+      .reply ⟨200, "", some (.obj [("accessToken", .str "a-acc"), ("clientToken", .str "a-cli"),
+        ("selectedProfile", .obj [("id", .str "a-id"), ("name", .str "Alice")])])⟩)]
+    1 (.str "bob", .str "b-acc", .str "b-cli") rfl).1
+  revert this
+  decide +kernel
+
+/-! ## Non-vacuity: concrete instances -/
+
+/-- a fully populated token; the documented result and error replies -/
+def tokA : Token := ⟨.str "alice", .str "acc-A", .str "cli-A", ⟨.str "id-A", .str "Alice"⟩⟩
+def resultB : JVal := .obj [("accessToken", .str "acc-B"), ("clientToken", .str "cli-B"),
+  ("selectedProfile", .obj [("id", .str "id-B"), ("name", .str "Bob")]), ("user", .obj [])]
+def errorC : JVal := .obj [("error", .str "ForbiddenOperationException"),
+  ("errorMessage", .str "Invalid token"), ("cause", .str "UserMigratedException")]
+
+-- json_decodes_back / json_is_printable_ascii on a value with every kind of escape
+example : jsonDumps (.obj [("k\n", .arr [.num (-5), .null, .bool true, .str "é\"\\😀"])]) =
+    "{\"k\\n\": [-5, null, true, \"\\u00e9\\\"\\\\\\ud83d\\ude00\"]}" := by decide +kernel
+example : parseJson " { \"a\" : [ 1 , \"\\uD83D\\uDE00\\/\" ] } " =
+    some (.obj [("a", .arr [.num 1, .str "😀/"])]) := by decide +kernel
+example : parseJson "{\"a\": 1,}" = none ∧ parseJson "01" = none ∧ parseJson "\"\\ud83d\"" = none ∧
+    parseJson "accessToken=acc" = none := by decide +kernel
+
+-- request_is_documented_post / posted_payload: the hypothesis is satisfiable, the request spelled out
+example : (run .refresh (fun _ => .fail) tokA).2.2 = some
+    ⟨"POST", "https://authserver.mojang.com/refresh", [("content-type", "application/json")],
+     "{\"accessToken\": \"acc-A\", \"clientToken\": \"cli-A\"}", 15⟩ := by decide +kernel
+example : (run (.join "srv") (fun _ => .fail) tokA).2.2 = some
+    ⟨"POST", "https://sessionserver.mojang.com/session/minecraft/join",
+     [("content-type", "application/json")],
+     "{\"accessToken\": \"acc-A\", \"selectedProfile\": {\"id\": \"id-A\", \"name\": \"Alice\"}, \"serverId\": \"srv\"}",
+     15⟩ := by decide +kernel
+example : (run (.authenticate "f00d" "Jürgen" "p\"w" false) (fun _ => .fail)
+      { tokA with clientToken := .str "" }).2.2 = some
+    ⟨"POST", "https://authserver.mojang.com/authenticate", [("content-type", "application/json")],
+     "{\"agent\": {\"name\": \"Minecraft\", \"version\": 1}, \"username\": \"J\\u00fcrgen\", \"password\": \"p\\\"w\", \"clientToken\": \"f00d\"}",
+     15⟩ := by decide +kernel
+/-- attributes that are not strings are posted as they are (`None` → `null`, a number as a number) -/
+example : ((run .invalidate (fun _ => .fail) ⟨.null, .null, .num 5, ⟨.null, .null⟩⟩).2.2.map (·.body)) =
+    some "{\"accessToken\": null, \"clientToken\": 5}" := by decide +kernel
+example : StringToken tokA := ⟨_, _, _, _, _, rfl⟩
+/-- `Yggdrasil.conforms` discriminates: an undocumented member, a missing mandatory member and a
+member of the wrong shape are each rejected — so `invalidate` on a token without tokens posts
+`{"accessToken": null, "clientToken": null}`, which is not a documented payload. -/
+example :
+    Yggdrasil.conforms .authenticate (.obj [("agent", .obj [("name", .str "Minecraft"), ("version", .num 1)]),
+      ("username", .str "u"), ("password", .str "p")]) = true ∧
+    Yggdrasil.conforms .authenticate (.obj [("agent", .obj [("name", .str "Minecraft"), ("version", .num 1)]),
+      ("username", .str "u"), ("password", .str "p"), ("requestUsr", .bool true)]) = false ∧
+    Yggdrasil.conforms .authenticate (.obj [("agent", .obj [("name", .str "Minecraft"), ("version", .num 2)]),
+      ("username", .str "u"), ("password", .str "p")]) = false ∧
+    Yggdrasil.conforms .authenticate (.obj [("username", .str "u"), ("agent",
+      .obj [("name", .str "Minecraft"), ("version", .num 1)])]) = false ∧
+    Yggdrasil.conforms .invalidate (.obj [("accessToken", .null), ("clientToken", .null)]) = false ∧
+    Yggdrasil.conforms .validate (.obj [("accessToken", .str "a")]) = true := by decide +kernel
+
+-- RaiseSpec: each hypothesis is satisfiable
+example : Yggdrasil.errorReplySpec errorC =
+    some ("ForbiddenOperationException", "Invalid token", some "UserMigratedException") := by
+  decide +kernel
+example : raiseFromResponse ⟨403, "{…}", some errorC⟩ = some (.yggdrasil
+      (some (.error 403 (.str "ForbiddenOperationException") (.str "Invalid token"))) (some 403)
+      (.str "ForbiddenOperationException") (.str "Invalid token") (.str "UserMigratedException")) ∧
+    (Msg.error 403 (.str "ForbiddenOperationException") (.str "Invalid token")).text (fun _ => "") =
+      "[403] ForbiddenOperationException: 'Invalid token'" := by decide +kernel
+example : ∀ kvs, (⟨502, "<html>", none⟩ : Reply).json = some (.obj kvs) →
+    kvs.lookup "error" = none ∨ kvs.lookup "errorMessage" = none := by simp
+example : (Msg.malformed 502 "<html>Bad Gateway</html>").text (fun _ => "") =
+    "[502] Malformed error message: '<html>Bad Gateway</html>'" := by decide +kernel
+/-- members that are not strings are copied and formatted the way `str.format` does -/
+example : raiseFromResponse ⟨403, "", some (.obj [("error", .num 5), ("errorMessage", .null)])⟩ =
+      some (.yggdrasil (some (.error 403 (.num 5) .null)) (some 403) (.num 5) .null .null) ∧
+    (Msg.error 403 (.num 5) .null).text (fun _ => "") = "[403] 5: 'None'" := by decide +kernel
+
+-- error_reply_raises / transport_failure_propagates: hypotheses satisfiable
+example : (run .refresh (fun _ => .reply ⟨403, "", some errorC⟩) tokA).1 = tokA ∧
+    (run .refresh (fun _ => .reply ⟨403, "", some errorC⟩) tokA).2.1 =
+      .yggdrasil (some (.error 403 (.str "ForbiddenOperationException") (.str "Invalid token")))
+        (some 403) (.str "ForbiddenOperationException") (.str "Invalid token")
+        (.str "UserMigratedException") := by decide +kernel
+example : run (.authenticate "f" "bob" "pw" true) (fun _ => .fail) tokA =
+    (tokA, .transport, (run (.authenticate "f" "bob" "pw" true) (fun _ => .fail) tokA).2.2) := by
+  decide +kernel
+
+-- authenticate_true_iff / documented_result_is_stored / refresh_true_iff
+example : Yggdrasil.resultReplySpec resultB = some ("acc-B", "cli-B", "id-B", "Bob") := by
+  decide +kernel
+example : (run (.authenticate "f" "bob" "pw" false) (fun _ => .reply ⟨200, "", some resultB⟩) tokA).1 =
+      ⟨.str "bob", .str "acc-B", .str "cli-B", ⟨.str "id-B", .str "Bob"⟩⟩ ∧
+    (run .refresh (fun _ => .reply ⟨200, "", some resultB⟩) tokA).1 =
+      ⟨.str "alice", .str "acc-B", .str "cli-B", ⟨.str "id-B", .str "Bob"⟩⟩ := by decide +kernel
+/-- the defect of `authenticate_true_yet_not_authenticated`, followed by the refused `join` -/
+example :
+    let res := runTok tokA [(.authenticate "f" "bob" "pw" false,
+        .reply ⟨200, "", some (.obj [("accessToken", .null), ("clientToken", .str "c"),
+          ("selectedProfile", .obj [("id", .str "i"), ("name", .str "n")])])⟩),
+      (.join "srv", .reply ⟨204, "", none⟩)]
+    res.2 = [(.ret true, (run (.authenticate "f" "bob" "pw" false) (fun _ => .fail) tokA).2.2),
+             (.yggdrasil (some .notAuthenticated) none .null .null .null, none)] := by
+  decide +kernel
+/-- `selected_profile_not_an_object`: new tokens next to the old profile, and the token still claims
+to be authenticated -/
+example :
+    let res := run .refresh (fun _ => .reply ⟨200, "", some (.obj [("accessToken", .str "acc-B"),
+      ("clientToken", .str "cli-B"), ("selectedProfile", .null)])⟩) tokA
+    res.1 = ⟨.str "alice", .str "acc-B", .str "cli-B", ⟨.str "id-A", .str "Alice"⟩⟩ ∧
+    res.2.1 = .typeError ∧ authenticated res.1 = true := by decide +kernel
+
+-- TokensIndependent: a program with two tokens; refused_call_leaves_no_trace; history_unchanged
+def twoTokens : World := build World.newToken [(.null, .null, .null), (.str "bob", .str "b-acc", .str "b-cli")]
+example : twoTokens.view 1 = some ⟨.str "bob", .str "b-acc", .str "b-cli", ⟨.null, .null⟩⟩ := by
+  decide +kernel
+example : (runSeq twoTokens [(.method 0 (.authenticate "f" "alice" "pw" false),
+      .reply ⟨200, "", some resultB⟩)]).1.view 1 = twoTokens.view 1 := by decide +kernel
+example : ∃ o q, (twoTokens.call (.method 1 .refresh) (fun _ => .reply ⟨403, "", some errorC⟩)).2 =
+    some (o, q) ∧ o.isRefusal = true := ⟨_, _, rfl, by decide +kernel⟩
+example : ∀ s ∈ [((.validate : Op), Resp.reply ⟨204, "", none⟩), (.refresh, .reply ⟨403, "", some errorC⟩),
+    (.authenticate "f" "u" "p" true, .fail), (.refresh, .reply ⟨200, "x", none⟩), (.join "s", .fail)],
+    Storing s = false := by decide +kernel
+example : Storing (.refresh, .reply ⟨200, "", some resultB⟩) = true := by decide +kernel
+
+/-- `runSvc` against a small stateful stand-in (it counts the requests and answers the third one
+with an error): the run is a `runSeq` with the responses it gave. -/
+def countingService : Service Nat :=
+  ⟨fun n _ => (n + 1, if n = 2 then .reply ⟨403, "", some errorC⟩ else .reply ⟨204, "", none⟩)⟩
+example : (runSvc countingService 0 (build World.newToken [(.str "alice", .str "acc-A", .str "cli-A")])
+      [.method 0 .validate, .method 0 (.join "s"), .method 0 .invalidate, .method 0 .invalidate]).2.2.map
+        (fun o => o.map (·.1)) =
+    [some (.ret true), some (.yggdrasil (some .notAuthenticated) none .null .null .null),
+     some (.ret true),
+     some (.yggdrasil (some (.error 403 (.str "ForbiddenOperationException") (.str "Invalid token")))
+       (some 403) (.str "ForbiddenOperationException") (.str "Invalid token")
+       (.str "UserMigratedException"))] := by decide +kernel
 
 end PyCraft.C19Seq
